@@ -221,6 +221,81 @@ def conditions_at(fnode: ast.AST, node: ast.AST) -> List[Tuple[ast.AST, bool]]:
     return out
 
 
+def count_if(e: ast.AST) -> Optional[Tuple[str, str]]:
+    """(iterable text, condition text over the element `E`) when `e` counts the elements of an iterable that satisfy a condition, in any of
+    the spellings  sum(1 for T in IT if C) / len([.. for T in IT if C]) / sum(1 for _ in filter(lambda p: C, IT)) / len(list(filter(...)))"""
+    import copy as _copy
+
+    def over_element(target: ast.AST, cond: ast.AST) -> Optional[str]:
+        env: Dict[str, ast.AST] = {}
+        E = ast.Name(id="E", ctx=ast.Load())
+        if isinstance(target, ast.Name):
+            env[target.id] = E
+        elif isinstance(target, (ast.Tuple, ast.List)) and all(isinstance(x, ast.Name) for x in target.elts):
+            for k, x in enumerate(target.elts):
+                env[x.id] = ast.Subscript(value=E, slice=ast.Constant(value=k), ctx=ast.Load())
+        else:
+            return None
+
+        class S(ast.NodeTransformer):
+            def visit_Name(self, n):
+                return _copy.deepcopy(env[n.id]) if n.id in env and isinstance(n.ctx, ast.Load) else n
+        return norm(S().visit(_copy.deepcopy(cond)))
+
+    def from_filter(c: ast.AST) -> Optional[Tuple[str, str]]:
+        if isinstance(c, ast.Call) and dotted(c.func) == "filter" and len(c.args) == 2 and isinstance(c.args[0], ast.Lambda) and len(c.args[0].args.args) == 1:
+            lam = c.args[0]
+            cond = over_element(ast.Name(id=lam.args.args[0].arg, ctx=ast.Store()), lam.body)
+            return (norm(c.args[1]), cond) if cond is not None else None
+        return None
+
+    def from_comp(c: ast.AST, need_one: bool) -> Optional[Tuple[str, str]]:
+        if isinstance(c, (ast.GeneratorExp, ast.ListComp)) and len(c.generators) == 1:
+            g = c.generators[0]
+            if need_one and not (isinstance(c.elt, ast.Constant) and c.elt.value == 1 and type(c.elt.value) is int):
+                return None
+            if not g.ifs:
+                return from_filter(g.iter) if isinstance(g.target, ast.Name) and (need_one or True) else None
+            if len(g.ifs) == 1:
+                cond = over_element(g.target, g.ifs[0])
+                return (norm(g.iter), cond) if cond is not None else None
+        return None
+    if isinstance(e, ast.Call) and len(e.args) == 1 and not e.keywords:
+        fn = dotted(e.func)
+        a = e.args[0]
+        if fn == "sum":
+            return from_comp(a, True)
+        if fn == "len":
+            if isinstance(a, ast.Call) and dotted(a.func) in ("list", "tuple") and len(a.args) == 1:
+                a = a.args[0]
+                return from_filter(a) or from_comp(a, False)
+            if isinstance(a, ast.ListComp):
+                return from_comp(a, False)
+            if isinstance(a, (ast.Name, ast.Attribute)):
+                return norm(a), "True"          # every element counts
+            return None
+    return None
+
+
+def key_function(M: Model, f: FuncInfo, k: Optional[ast.AST]) -> Optional[Tuple[str, ast.AST]]:
+    """(parameter name, returned expression) of a sort / min / max key given as a lambda or as a reference to a one-expression function
+    (self._helper, Class._helper, module function)"""
+    if isinstance(k, ast.Lambda) and len(k.args.args) == 1:
+        return k.args.args[0].arg, k.body
+    g = None
+    if isinstance(k, ast.Attribute) and isinstance(k.value, ast.Name) and f.cls is not None and k.value.id in (f.self_name, "cls", f.cls.name):
+        g = M.find_method(f.cls, k.attr)
+    elif isinstance(k, ast.Name):
+        g = M.functions.get(k.id)
+    if g is None or isinstance(g.node, ast.Lambda):
+        return None
+    body = [s for s in g.node.body if not isinstance(s, ast.Pass)]
+    ps = [p for p in g.params if not (g.kind in ("method", "classmethod") and p == g.params[0])]
+    if len(body) == 1 and isinstance(body[0], ast.Return) and body[0].value is not None and len(ps) == 1:
+        return ps[0], body[0].value
+    return None
+
+
 def stores_to(fnode: ast.AST, name: str) -> List[ast.AST]:
     """statements that (re)bind local `name` in any way (assign, augassign, for target, with, comprehension excluded)"""
     out = []
@@ -275,8 +350,14 @@ def check_params_stable(ctx: Ctx, rule: str = "R-PARAMS"):
                 txt = norm(st)
                 if isinstance(st, (ast.For, ast.With)):
                     txt = norm(st)[:80]
+                default_idiom = isinstance(st, ast.Assign) and any(
+                    isinstance(t, ast.Compare) and len(t.ops) == 1 and isinstance(t.ops[0], ast.Is) and truth and norm(t.left) == prm and
+                    isinstance(t.comparators[0], ast.Constant) and t.comparators[0].value is None for t, truth in conditions_at(f.node, st)) \
+                    and prm not in {x.id for x in ast.walk(st.value) if isinstance(x, ast.Name)}
                 if isinstance(st, (ast.Assign, ast.AnnAssign, ast.AugAssign)) and canon(st) in {canon(x) for x in PARAM_REBIND_OK.get((qn, prm), ())}:
                     ctx.ok(rule, f, st, f"listed idiom: parameter `{prm}` is given its default / normalised form", key=f"{prm}")
+                elif default_idiom:
+                    ctx.ok(rule, f, st, f"default idiom: parameter `{prm}` is replaced only when the caller passed None", key=f"{prm}")
                 else:
                     ctx.undecided(rule, f, st, f"parameter `{prm}` is rebound by `{txt[:100]}`: the rules of this property read `{prm}` as the caller's value; "
                                   f"confirm the new meaning and list the idiom (not a verdict on the repository)", key=f"{prm}")
